@@ -243,3 +243,44 @@ Theorem bad_option_value_rejected_w : forall f f' ar cns toks st1 st2 n v,
   parse f false toks = Err ValueError.
 Proof. exact bad_option_value_w. Qed.
 Print Assumptions bad_option_value_rejected_w.
+
+(* ======================= the clauses on LINE DESCRIPTIONS: a well-formed line with ONE fault =======================
+   Vocabulary of C01 (Model/Spell.v): d : ld is a line description - command-name spellings, option items in their written
+   forms, positionals, "--" tail; render d its tokens; values d its positional values; events d what it gives to the
+   options; wf_line f d the conditions under which parse f len (render d) = Ok (denote f d) (C01.parse_spells).
+   wf_line f d = forms_ok f d (the written forms are unambiguous; Proofs/ClassifyLineLemmas.v, with the conversions of the
+   option texts taken out) && fits (no more values than arguments, every text converts) && req_ok (every required
+   argument gets a value):  well_formed_line_conjuncts.  Each clause below keeps forms_ok and breaks ONE other conjunct.
+   fmt_ok f is the format hypothesis of parse_spells (true of every API-built format, C01.api_format_fmt_ok);
+   opts_listed_ok f: the options f lists are valid objects (the opts_ok_w of above, read off the option list of f).
+   From here on long_tok, no_eq, is_flag, names_ok unqualified are those of Model/Spell.v. *)
+From Clikit Require Import Model.Spell Proofs.SpellArgs Proofs.ClassifyLineLemmas.
+
+Theorem well_formed_line_conjuncts : forall f d, wf_line f d = true ->
+  forms_ok f d = true /\ fits (get_arguments_all f) (values d) = true /\ req_ok (get_arguments_all f) (values d) = true.
+Proof. exact wf_line_forms. Qed.
+Print Assumptions well_formed_line_conjuncts.
+
+(* ---- clause 5: the line carries more positional values than the format declares arguments ---- *)
+Theorem surplus_positional_rejected : forall f d,
+  fmt_ok f = true -> forms_ok f d = true ->
+  no_multi (get_arguments_all f) = true -> length (get_arguments_all f) < length (values d) ->
+  parse f false (render d) = Err CannotParse.
+Proof. exact surplus_positional_rejected_lemma. Qed.
+Print Assumptions surplus_positional_rejected.
+Theorem surplus_positional_lenient_ok : forall f d,
+  fmt_ok f = true -> opts_listed_ok f = true -> parse f true (render d) <> Err CannotParse.
+Proof. exact surplus_positional_lenient_lemma. Qed.
+Print Assumptions surplus_positional_lenient_ok.
+
+(* ---- clause 4: the values fit in number (shape), but a required argument gets none ---- *)
+Theorem missing_required_rejected : forall f d,
+  fmt_ok f = true -> forms_ok f d = true ->
+  shape (get_arguments_all f) (values d) = true -> req_ok (get_arguments_all f) (values d) = false ->
+  parse f false (render d) = Err CannotParse.
+Proof. exact missing_required_rejected_lemma. Qed.
+Print Assumptions missing_required_rejected.
+Theorem missing_required_lenient_ok : forall f d,
+  fmt_ok f = true -> opts_listed_ok f = true -> parse f true (render d) <> Err CannotParse.
+Proof. exact missing_required_lenient_lemma. Qed.
+Print Assumptions missing_required_lenient_ok.
